@@ -185,7 +185,7 @@ impl<P: PageTableFrameMapping> Mapper<Size1GiB> for MappedPageTable<'_, P> {
             return Err(UnmapError::ParentEntryHugePage);
         }
 
-        let frame = PhysFrame::from_start_address(p3_entry.addr())
+        let frame = PhysFrame::from_start_address(p3_entry.huge_page_addr())
             .map_err(|AddressNotAligned| UnmapError::InvalidFrameAddress(p3_entry.addr()))?;
 
         p3_entry.set_unused();
@@ -212,7 +212,8 @@ impl<P: PageTableFrameMapping> Mapper<Size1GiB> for MappedPageTable<'_, P> {
             // the entry points to a level 2 table, not to a 1GiB page
             return Err(FlagUpdateError::ParentEntryHugePage);
         }
-        p3[page.p3_index()].set_flags(flags | PageTableFlags::HUGE_PAGE);
+        let entry = &mut p3[page.p3_index()];
+        entry.set_addr(entry.huge_page_addr(), flags | PageTableFlags::HUGE_PAGE);
 
         Ok(MapperFlush::new(page))
     }
@@ -264,7 +265,7 @@ impl<P: PageTableFrameMapping> Mapper<Size1GiB> for MappedPageTable<'_, P> {
             return Err(TranslateError::ParentEntryHugePage);
         }
 
-        PhysFrame::from_start_address(p3_entry.addr())
+        PhysFrame::from_start_address(p3_entry.huge_page_addr())
             .map_err(|AddressNotAligned| TranslateError::InvalidFrameAddress(p3_entry.addr()))
     }
 }
@@ -307,7 +308,7 @@ impl<P: PageTableFrameMapping> Mapper<Size2MiB> for MappedPageTable<'_, P> {
             return Err(UnmapError::ParentEntryHugePage);
         }
 
-        let frame = PhysFrame::from_start_address(p2_entry.addr())
+        let frame = PhysFrame::from_start_address(p2_entry.huge_page_addr())
             .map_err(|AddressNotAligned| UnmapError::InvalidFrameAddress(p2_entry.addr()))?;
 
         p2_entry.set_unused();
@@ -338,7 +339,8 @@ impl<P: PageTableFrameMapping> Mapper<Size2MiB> for MappedPageTable<'_, P> {
             return Err(FlagUpdateError::ParentEntryHugePage);
         }
 
-        p2[page.p2_index()].set_flags(flags | PageTableFlags::HUGE_PAGE);
+        let entry = &mut p2[page.p2_index()];
+        entry.set_addr(entry.huge_page_addr(), flags | PageTableFlags::HUGE_PAGE);
 
         Ok(MapperFlush::new(page))
     }
@@ -407,7 +409,7 @@ impl<P: PageTableFrameMapping> Mapper<Size2MiB> for MappedPageTable<'_, P> {
             return Err(TranslateError::ParentEntryHugePage);
         }
 
-        PhysFrame::from_start_address(p2_entry.addr())
+        PhysFrame::from_start_address(p2_entry.huge_page_addr())
             .map_err(|AddressNotAligned| TranslateError::InvalidFrameAddress(p2_entry.addr()))
     }
 }
